@@ -69,4 +69,143 @@ theorem CtxInv.setLocal {p : SKProvider} {c : ECtx} (hp : ProviderOK p) (hi : Ct
     · subst hne; rw [Locals.get_set_self]; rfl
     · rw [Locals.get_set_ne _ _ _ _ hne]; exact hi.2 n l hl hv
 
+theorem map_pair_ok {α} (r : Except String α) (c c' : ECtx) (v : α) :
+    (Except.map (fun x => (x, c)) r = .ok (v, c')) ↔ r = .ok v ∧ c = c' := by
+  cases r with
+  | error e => simp [Except.map]
+  | ok a => simp [Except.map]
+
+theorem map_ok_snd {α β} (r : Except String α) (g : α → β) (c c' : ECtx) (v : β)
+    (h : Except.map (fun x => (g x, c)) r = .ok (v, c')) : c' = c := by
+  cases r with
+  | error e => cases h
+  | ok a => simp [Except.map] at h; exact h.2.symm
+
+theorem call_known_inv (p : SKProvider) (f : Expr) (args : List Expr) (h : staticallyKnown p (.call f args) = true) :
+    ∃ n, f = .var 0 [n] ∧ staticallyKnownAll p args = true ∧ (builtinStaticallyKnownValue n || p.queryFunction n) = true := by
+  simp only [staticallyKnown] at h
+  split at h
+  · rename_i names
+    split at h
+    · cases h
+    · rename_i hka
+      split at h
+      · rename_i n
+        exact ⟨n, rfl, by simpa using hka, h⟩
+      · cases h
+  · cases h
+
+/-- the callee of a known call evaluates, in both environments and without touching the
+    context, to the same builtin or asm-builtin function -/
+theorem callee_eval (p : SKProvider) (env1 env2 : EvalEnv) (ag : Agree p env1 env2) (c : ECtx) (n : String)
+    (hkn : (builtinStaticallyKnownValue n || p.queryFunction n) = true) (hinv : CtxInv p c) :
+    ∃ fv, eval env1 c (.var 0 [n]) = .ok (fv, c) ∧ eval env2 c (.var 0 [n]) = .ok (fv, c) ∧ fv.shouldPropagate = false ∧
+      (fv = .builtin n ∨ ∃ n', fv = .asmBuiltin n') := by
+  by_cases hb : isBuiltinName n = true
+  · exact ⟨.builtin n, by simp [eval, hb], by simp [eval, hb], rfl, Or.inl rfl⟩
+  · have hq : p.queryFunction n = true := by
+      cases h1 : builtinStaticallyKnownValue n with
+      | true => exact absurd (builtinKnown_isBuiltin n h1) hb
+      | false => simpa [h1] using hkn
+    have hl := hinv.1 n hq
+    obtain ⟨n', e1, e2⟩ := ag.callee n hq (by simpa using hb)
+    refine ⟨.asmBuiltin n', ?_, ?_, rfl, Or.inr ⟨n', rfl⟩⟩
+    · simp [eval, hb, hl, e1, Except.map]
+    · simp [eval, hb, hl, e2, Except.map]
+
+theorem call_static (p : SKProvider) (env1 env2 : EvalEnv) (ag : Agree p env1 env2) (c : ECtx) (n : String) (args : List Expr)
+    (hkn : (builtinStaticallyKnownValue n || p.queryFunction n) = true) (hinv : CtxInv p c)
+    (iha : evalArgs env2 c [] args = evalArgs env1 c [] args ∧ ∀ r c', evalArgs env1 c [] args = .ok (r, c') → CtxInv p c') :
+    eval env2 c (.call (.var 0 [n]) args) = eval env1 c (.call (.var 0 [n]) args) ∧
+      ∀ v c', eval env1 c (.call (.var 0 [n]) args) = .ok (v, c') → CtxInv p c' := by
+  obtain ⟨fv, h1, h2, hnp, hfv⟩ := callee_eval p env1 env2 ag c n hkn hinv
+  generalize Expr.var 0 [n] = f at h1 h2 ⊢
+  rw [eval, eval, h1, h2]
+  simp only [hnp, Bool.false_eq_true, if_false, iha.1]
+  cases ha : evalArgs env1 c [] args with
+  | error m => exact ⟨rfl, fun _ _ h => by cases h⟩
+  | ok x =>
+    obtain ⟨r, c1⟩ := x
+    have hc1 := iha.2 r c1 ha
+    cases r with
+    | inl v => exact ⟨rfl, fun _ _ h => by injection h with h; injection h with _ h2; rw [← h2]; exact hc1⟩
+    | inr vs =>
+      rcases hfv with hfv | ⟨n', hfv⟩
+      · subst hfv
+        exact ⟨rfl, fun _ _ h => by rw [map_ok_snd _ id _ _ _ h]; exact hc1⟩
+      · subst hfv
+        simp only [ag.fn]
+        exact ⟨trivial, fun _ _ h => by rw [map_ok_snd _ id _ _ _ h]; exact hc1⟩
+
+set_option maxHeartbeats 4000000 in
+/-- **what "statically known" means**: evaluation in two environments that agree on what the
+    analysis calls known gives the same result (value or error text, and context) -/
+theorem eval_static (p : SKProvider) (hp : ProviderOK p) (env1 env2 : EvalEnv) (ag : Agree p env1 env2) :
+    ∀ c e, staticallyKnown p e = true → CtxInv p c →
+      eval env2 c e = eval env1 c e ∧ ∀ v c', eval env1 c e = .ok (v, c') → CtxInv p c' := by
+  intro c e
+  apply eval.induct env1
+    (motive_1 := fun c e => staticallyKnown p e = true → CtxInv p c →
+      eval env2 c e = eval env1 c e ∧ ∀ v c', eval env1 c e = .ok (v, c') → CtxInv p c')
+    (motive_2 := fun c acc es => staticallyKnownAll p es = true → CtxInv p c →
+      evalArgs env2 c acc es = evalArgs env1 c acc es ∧ ∀ r c', evalArgs env1 c acc es = .ok (r, c') → CtxInv p c')
+    (motive_3 := fun c last es => staticallyKnownAll p es = true → CtxInv p c →
+      evalBlock env2 c last es = evalBlock env1 c last es ∧ ∀ v c', evalBlock env1 c last es = .ok (v, c') → CtxInv p c')
+  case case4 =>
+    intro locals name hb hl hk hinv
+    have hv : env2.var 0 [name] = env1.var 0 [name] := by
+      simp only [staticallyKnown] at hk
+      split at hk
+      · rename_i l hpl
+        have := hinv.2 name l hpl hk
+        rw [hl] at this; cases this
+      · exact ag.var 0 [name] hk
+    have ee : ∀ env : EvalEnv, eval env locals (.var 0 [name]) = (env.var 0 [name]).map (·, locals) := by
+      intro env; simp [eval, hb, hl]
+    rw [ee, ee, hv]
+    exact ⟨rfl, fun v c' h => by rw [((map_pair_ok _ _ _ _).mp h).2] at hinv; exact hinv⟩
+  case case5 =>
+    intro locals level path hx hk hinv
+    have hq : p.queryVariable level path = true := by
+      simp only [staticallyKnown] at hk
+      first
+        | exact hk
+        | (split at hk
+           · rename_i n; exact absurd rfl (fun e => hx n rfl e)
+           · exact hk)
+    have ee : ∀ env : EvalEnv, eval env locals (.var level path) = (env.var level path).map (·, locals) := by
+      intro env; rw [eval]; exact hx
+    rw [ee, ee, ag.var level path hq]
+    exact ⟨rfl, fun v c' h => by rw [((map_pair_ok _ _ _ _).mp h).2] at hinv; exact hinv⟩
+  case case14 =>
+    intro locals r name v locals1 hx hnp ih1 hk hinv
+    have hk' : staticallyKnown p (.var 0 [name]) = true ∧ staticallyKnown p r = true := by
+      simpa [staticallyKnown] using hk
+    obtain ⟨e1, i1⟩ := ih1 hk'.2 hinv
+    have hnp' : v.shouldPropagate = false := by simpa using hnp
+    simp only [eval, e1, hx, hnp', Bool.false_eq_true, if_false]
+    refine ⟨trivial, fun v' c' h => ?_⟩
+    injection h with h; injection h with _ h2
+    rw [← h2]
+    exact CtxInv.setLocal hp (i1 _ _ hx) name v hk'.1
+  case case64 | case65 | case66 | case67 | case68 | case69 | case70 | case71 | case72 =>
+    intros
+    rename_i hk hinv
+    obtain ⟨n, hf, hka, hkn⟩ := call_known_inv p _ _ hk
+    subst hf
+    obtain ⟨fv, h1, h2, hnp, hfv⟩ := callee_eval p env1 env2 ag _ n hkn hinv
+    simp only [h1, Except.ok.injEq, Prod.mk.injEq, reduceCtorEq] at *
+    all_goals (
+      try (obtain ⟨rfl, rfl⟩ := ‹fv = _ ∧ _ = _›)
+      first
+        | (simp_all; done)
+        | exact call_static p env1 env2 ag _ n _ hkn hinv (by apply_assumption <;> assumption))
+  case case55 => intros; rename_i hk hinv; simp only [staticallyKnown, staticallyKnownAll, Bool.and_eq_true] at hk; simp_all [eval, evalArgs, evalBlock]; intro v c' h; split at h; (· cases h); (· have := map_ok_snd _ _ _ _ _ h; subst this; simp_all)
+  all_goals (intros; try (rename_i hk hinv; simp only [staticallyKnown, staticallyKnownAll, Bool.and_eq_true] at hk; first
+    | (simp_all [eval, evalArgs, evalBlock]; done)
+    | (simp_all [eval, evalArgs, evalBlock, map_pair_ok]; done)
+    | (simp_all [eval, evalArgs, evalBlock]; intro v c' h; have := map_ok_snd _ _ _ _ _ h; subst this; simp_all; done)
+    | (simp_all [eval, evalArgs, evalBlock]; intro v c' h; split at h <;> cases h)
+    | skip))
+
 end Casm
